@@ -413,7 +413,9 @@ func (ck *PlistChecker) checkPathMan(pline *PlistLine) {
 			"configured by the pkgsrc user.",
 			"Compression and decompression takes place automatically,",
 			"no matter if the .gz extension is mentioned in the PLIST or not.")
-		fix.ReplaceAt(0, len(pline.Line.Text)-len(".gz"), ".gz", "")
+		if hasSuffix(strings.TrimSuffix(fix.texts[0], "\n"), ".gz") {
+			fix.ReplaceAt(0, len(pline.Line.Text)-len(".gz"), ".gz", "")
+		}
 		fix.Apply()
 	}
 }
